@@ -807,8 +807,19 @@ func convertToExp(parser *syntax.Parser, split bool, val json.Marshaler,
 			if err := json.Unmarshal(val, &jv); err != nil {
 				return nil, err
 			}
-			exp, err := convertToExp(parser, false,
-				jv.Split, tname, lookup)
+			// What is split over is an array or a typed map whose
+			// elements have the parameter's type.
+			exp, err := parser.ParseValExp(jv.Split)
+			switch coll := exp.(type) {
+			case *syntax.ArrayExp:
+				for _, e := range coll.Value {
+					fixExpressionTypes(e, tname, lookup)
+				}
+			case *syntax.MapExp:
+				for _, e := range coll.Value {
+					fixExpressionTypes(e, tname, lookup)
+				}
+			}
 			if n, ok := exp.(*syntax.NullExp); ok {
 				return n, err
 			}
